@@ -292,6 +292,31 @@ def judge_delivery(op, sender_client, log, tag='', early_body=False):
               tag + 'push-fields', None)
 
 
+def _table(x):
+    t = getattr(x, 'header_table', None)
+    if t is None:
+        return None
+    return [(bytes(n), bytes(v)) for n, v in t.dynamic_entries]
+
+
+def check_hpack_sync(p, tag=''):
+    """after a completed exchange (everything emitted was delivered, nobody raised) the
+    encoder of each side and the decoder of the other hold the same dynamic table: a header
+    block that was emitted but not decoded (or the reverse) shows here at once, not only
+    when a later block happens to reference the missing entry"""
+    for snd, rcv, name in ((p.c, p.s, 'client-to-server'), (p.s, p.c, 'server-to-client')):
+        if snd.obs.conn_closed is not None or rcv.obs.conn_closed is not None:
+            continue
+        a, b = _table(snd.me.encoder), _table(rcv.me.decoder)
+        if a is None or b is None:
+            continue
+        check(a == b, tag + 'hpack-context-desync:' + name, (a, b))
+
+
+def _quiet(log):
+    return all(x is None for _d, _e, x in log)
+
+
 def make_step(history):
     def h():
         with h2h.native():
@@ -317,10 +342,14 @@ def make_step(history):
             log = exchange(p, other, emitted2)
             judge_delivery(op2, other == 'c', log, tag='after-refused-%s:' % op[0],
                            early_body=body_before_headers(pre2, op2))
+            if _quiet(log):
+                check_hpack_sync(p, 'after-refused-%s:' % op[0])
             return
         note('sent')
         log = exchange(p, who, emitted)
         judge_delivery(op, who == 'c', log, early_body=body_before_headers(pre, op))
+        if _quiet(log):
+            check_hpack_sync(p)
     return h
 
 
@@ -343,13 +372,16 @@ def make_cross(history):
         order = [('c', emc, opc), ('s', ems, ops_)]
         if first == 's':
             order.reverse()
-        closed = False
+        quiet = True
         for who, em, op in order:
             log = exchange(p, who, em)
+            quiet = quiet and _quiet(log)
             for dst, evs, exc in log:
                 check(exc is None, 'crossing-rejected:%s-vs-%s%s:%s' % (
                     opc[0], ops_[0], ':responder-body-before-headers' if early else '',
                     type(exc).__name__), (F.op_label(opc), F.op_label(ops_), repr(exc)[:100]))
+        if quiet:
+            check_hpack_sync(p, 'crossing:%s-vs-%s:' % (opc[0], ops_[0]))
     return h
 
 
